@@ -16,7 +16,8 @@ Slim(l) == IF l.a = "Fetch"
                  remaining |-> [i \in 1..Len(l.remaining) |-> <<l.remaining[i].seg, l.remaining[i].id>>], gotAll |-> l.gotAll]
            ELSE l
 GenInit == Init /\ hist = <<>>
-GenNext == /\ pc # "eof"
+(* the recentLast mode can spin for ever (see NoLivelock); such behaviours are cut off and not exported *)
+GenNext == /\ pc # "eof" /\ Len(hist) < 16
            /\ (InitQSRs \/ GetBlocks \/ FetchRRCs)
            /\ hist' = Append(hist, Slim(last'))
 GenSpec == GenInit /\ [][GenNext]_<<vars, hist>>
